@@ -1263,11 +1263,20 @@ impl<'a> Iterator for TLVSequenceIter<'a> {
     type Item = Result<TLVElement<'a>, Error>;
 
     fn next(&mut self) -> Option<Self::Item> {
-        self.0
+        let item = self
+            .0
             .current()
             .and_then(|current| self.advance().map(|_| current))
             .map(|elem| (!elem.is_empty()).then_some(elem))
-            .transpose()
+            .transpose();
+
+        if matches!(item, Some(Err(_))) {
+            // The error is reported once; the iterator is empty afterwards.
+            // (Without this, malformed data yields `Some(Err(_))` forever.)
+            self.0 = TLVSequence::EMPTY;
+        }
+
+        item
     }
 }
 
